@@ -26,7 +26,9 @@ BUILTIN = [
     "CP(C)(C)(C)C", "[CH3-]", "[CH2]", "[OH-]", "C#N", "[C-]#[O+]", "N#N", "C=C=C", "OO", "CC(C)(C)C",
     # ring / branch shapes
     "C1CC1", "C1CCC2CCCCC2C1", "C12CC1C2", "C1CC12CC2", "C1(CC1)C1CC1", "C(C(C(C)C)C)C", "CC(C)(C(C)(C)C)C(C)(C)C",
-    "C1CCCCCCCCCCCCCCCCCCCCC1", "CCCCC1CCCC(Cl)1CCCCCC", "C(CCC1CC)1", "C%10CCC%10", "C1CC1C1CC1", "C=1CCCCC=1", "C1=CC=CC=C1",
+    "C1CCCCCCCCCCCCCCCCCCCCC1", "CCCCC1CCCC(Cl)1CCCCCC", "C1CC2CCS1(=O)2C", "C1CC2CC[Si]1(C)2C", "C1CC2CCP1(=O)(C)2",
+    "[C@]123CCCC3CCOC2CCNC1", "[C@]123CCCC2CCOC3CCNC1", "C1CC2CCO[C@](F)12", "[C@](F)(Cl)1CCCCO1", "F/C=C/1CCCC/1", "C\\1CCC\\1",
+    "C/1=C/C=C\\C=C/C=C/1", "c12occc-1cccc2", "c1ccc2c(c1)-c1ccccc1-2", "c1cc-2c(cc1)-c1ccccc-21", "C[NH4+]", "[OH2]C", "C(CCC1CC)1", "C%10CCC%10", "C1CC1C1CC1", "C=1CCCCC=1", "C1=CC=CC=C1",
 ]
 
 
@@ -106,8 +108,14 @@ def corpus(rng, per_file, variants, include_builtin=True, files=None):
     out = []
     for src, s in base:
         out.append((src, s))
-        for v in respell(s, rng, variants):
+        vs = respell(s, rng, variants)
+        for v in vs:
             out.append((src + "/respelled", v))
+        # non-standard orders of ring digits and branches (of the molecule as given and of one re-spelling)
+        for v in [s] + vs[:1]:
+            w = shuffle_ring_branch(v, rng)
+            if w != v:
+                out.append((src + "/ring-branch-shuffled", w))
     return out
 
 
@@ -185,3 +193,94 @@ def small_graphs(rng, nmax, per_size, maxdeg=3):
                 out.append((n, sorted(edges)))
                 got += 1
     return out
+
+
+# --------------------------------------------------------------------------
+# non-standard but legal spellings: ring-closure digits and branches of an atom in any order
+# --------------------------------------------------------------------------
+
+def _tokenize(smi):
+    """Minimal tokenizer for *generating* spellings (not a judge): atoms, bonds+ring digits, parens, dots."""
+    toks, i, n = [], 0, len(smi)
+    while i < n:
+        c = smi[i]
+        b = ""
+        if c in "-=#:/\\" and i + 1 < n:
+            b, i = c, i + 1
+            c = smi[i]
+        if c == "[":
+            j = smi.index("]", i)
+            toks.append(("atom", b + smi[i:j + 1]))
+            i = j + 1
+        elif c == "%":
+            toks.append(("ring", b + smi[i:i + 3]))
+            i += 3
+        elif c.isdigit():
+            toks.append(("ring", b + c))
+            i += 1
+        elif c in "()":
+            toks.append((c, b + c))
+            i += 1
+        elif c == ".":
+            toks.append((".", "."))
+            i += 1
+        elif smi[i:i + 2] in ("Cl", "Br"):
+            toks.append(("atom", b + smi[i:i + 2]))
+            i += 2
+        else:
+            toks.append(("atom", b + c))
+            i += 1
+    return toks
+
+
+def shuffle_ring_branch(smi, rng):
+    """Re-spell: after each atom, permute its ring-closure digits and branches (a ring digit written after a
+    branch, branches before digits, digits in another order).  Chirality marks then denote another
+    stereoisomer - the result is still a legal SMILES of *a* molecule, which is all a driver needs."""
+    try:
+        toks = _tokenize(smi)
+    except ValueError:
+        return smi
+    out = []
+    i = 0
+    n = len(toks)
+
+    def group_end(k):           # k at "(": index after the matching ")"
+        depth = 0
+        while k < n:
+            if toks[k][0] == "(":
+                depth += 1
+            elif toks[k][0] == ")":
+                depth -= 1
+                if depth == 0:
+                    return k + 1
+            k += 1
+        return n
+
+    def emit(lo, hi):
+        k = lo
+        while k < hi:
+            kind, txt = toks[k]
+            out.append(txt)
+            k += 1
+            if kind == "atom":
+                items = []
+                while k < hi and toks[k][0] in ("ring", "("):
+                    if toks[k][0] == "ring":
+                        items.append((k, k + 1))
+                        k += 1
+                    else:
+                        e = group_end(k)
+                        items.append((k, e))
+                        k = e
+                if len(items) > 1:
+                    rng.shuffle(items)
+                for lo2, hi2 in items:
+                    if toks[lo2][0] == "ring":
+                        out.append(toks[lo2][1])
+                    else:
+                        out.append("(")
+                        emit(lo2 + 1, hi2 - 1)
+                        out.append(")")
+    emit(0, n)
+    return "".join(out)
